@@ -1,4 +1,5 @@
 import D2P.Proofs.Paragraph
+import D2P.Proofs.Elems
 /-!
 # C02 / C12 — inline content outside every paragraph stays in document order
 
@@ -77,5 +78,27 @@ theorem C02_implicit_closed_with_block (cfg : PartCfg) (s s' : DC) (p : Par) (x 
   rw [hf] at h0
   obtain ⟨hl, ho, _⟩ := concludePar_spec s s0 p (by rw [h1]; rfl) h0
   exact ⟨s0, h0, hl, by rw [ho, h1]; rfl, h⟩
+
+/-- **the same for every state the walk reaches.** `Sole` (an implicit paragraph is never open
+together with another one) holds initially (`sole_init`) and is kept by walking anything
+(`walk_sole`, `walkL_sole`); under it a pending implicit paragraph is the only open one, so the
+hypothesis of `C02_implicit_in_order` is met: whenever an element that has a depth is walked while
+an implicit paragraph is pending, that paragraph's record is placed first. -/
+theorem C02_implicit_in_order_reachable (cfg : PartCfg) (num : Dict Str (List NumAttr)) (c : Bool) (s s' : DC) (p : Par)
+    (hs : Sole (elems s)) (ht : s.openPars.getLast? = some p) (hp : p.elem = none)
+    (i : Nat) (pf : Option Str) (t : QName) (m : NsMap) (a : List (QName × Str)) (tx tl : Option Str) (ks : List Xml)
+    (d : Nat) (hd : elemDepth (.elem i pf t m a tx tl ks) = some d)
+    (h : walk cfg num c s (.elem i pf t m a tx tl ks) = .ok s') :
+    ∃ s0, s.concludePar = .ok s0 ∧ leafParsL s0.root = leafParsL s.root ++ [p] ∧ s0.openPars = [] ∧
+      walk cfg num c s0 (.elem i pf t m a tx tl ks) = .ok s' ∧ Sole (elems s') :=
+  let ⟨s0, h0, hl, ho, hw⟩ := C02_implicit_in_order cfg num c s s' p (sole_implicit_top s p hs ht hp) hp i pf t m a tx tl ks d hd h
+  ⟨s0, h0, hl, ho, hw, walk_sole cfg num _ c s s' hs h⟩
+
+/-- … and the whole part: the state in which `new_depth_collector` starts satisfies `Sole`, so every
+state between two children of the body does -/
+theorem C02_sole_between_blocks (cfg : PartCfg) (num : Dict Str (List NumAttr)) (c : Bool) (pre : List Xml) (s : DC)
+    (h : walkL cfg num c ({ bullets := { numAttrs := num } } : DC) pre = .ok s) : Sole (elems s) :=
+  walkL_sole cfg num pre c _ s (sole_init num) h
+
 
 end D2P
